@@ -1,8 +1,101 @@
 import JrsVerif.Common.J
+import JrsVerif.Model.Manif
+import JrsVerif.Model.ManifSpec
 
 namespace JrsVerif.Drv.C14
-open Lean JrsVerif.J
+open Lean JrsVerif.J JrsVerif.Manif JrsVerif.ManifSpec JrsVerif.ManifVal
 
-def handle (_op : String) (_j : Json) : Option Json := none
+def jstr (l : List Char) : Json := .str (String.ofList l)
+def rejected : Json := .str "\u0000<rejected by the reference reader>"
+
+def back (r : Option (List Char)) : Json :=
+  match r with
+  | some s => jstr s
+  | none => rejected
+
+partial def parseV (j : Json) : Option V := do
+  let t ← str? j "t"
+  match t with
+  | "z" => some .null
+  | "b" => some (.bool (← bool? j "b"))
+  | "n" => some (.num (← str? j "r").toList)
+  | "s" => some (.str (← str? j "s").toList)
+  | "f" => some .func
+  | "a" => some (.arr (← (← arr? j "xs").toList.mapM parseV))
+  | "o" =>
+    let kv ← arr? j "kv"
+    let kvs ← kv.toList.mapM (fun p => match p with
+      | .arr #[.str k, v] => (parseV v).map (fun x => (k.toList, x))
+      | _ => none)
+    some (.obj kvs)
+  | _ => none
+
+def fmtOf (s : String) : Option (Fmt × ManifSpec.Format) :=
+  match s with
+  | "yaml" => some (.yaml, .yaml)
+  | "yamlstream" => some (.yamlStream, .yamlStream)
+  | "toml" => some (.toml, .toml)
+  | "python" => some (.python, .python)
+  | "pyvars" => some (.pyvars, .pyvars)
+  | "xml" => some (.xml, .xml)
+  | "ini" => some (.ini, .ini)
+  | _ => none
+
+/-- model token and what the reference reader of that lexical position reads from `tok` -/
+def token (kind : String) (qk : Bool) (s tok : List Char) : Option (List Char × Json) :=
+  let quoted := tok.head? == some '"'
+  match kind with
+  | "toml.key" | "toml.hdr" | "toml.inl" => some (Manif.tomlKey s, back (ManifSpec.tomlKey tok))
+  | "toml.str" => some (escToml s, back (tomlBasic tok))
+  | "yaml.key" => some (yamlKey qk s, if quoted then back (yamlDq tok) else jstr tok)
+  | "yaml.str.std" => some (yamlStr true "  ".toList s, if quoted then back (yamlDq tok) else jstr s)
+  | "yaml.str.cli" => some (yamlStr false "  ".toList s,
+      if quoted then back (yamlDq tok) else if tok.head? == some '|' then jstr s else jstr tok)
+  | "py.str" => some (pyStr s, back (pyLiteral tok))
+  | "xml.std" => some (escXml 0 s, jstr s)
+  | "xml.text" => some (escXml 1 s, if s.all xmlChar then back (xmlText tok) else jstr s)
+  | "xml.attr" => some (escXml 2 s, if s.all xmlChar then back (xmlAttr tok) else jstr s)
+  | _ => none
+
+def handle (op : String) (j : Json) : Option Json :=
+  match op with
+  | "man.tok" =>
+    match (do
+      let kind ← str? j "kind"; let s ← str? j "s"; let qk ← bool? j "qk"
+      pure (kind, s.toList, qk)) with
+    | none => some (bad "man.tok: parse")
+    | some (kind, s, qk) =>
+      let tok? := (str? j "tok").map String.toList
+      match token kind qk s (tok?.getD []) with
+      | none => some (bad "man.tok: kind")
+      | some (m, b) =>
+        let mj := obj [("out", jstr m), ("back", jstr s)]
+        match tok? with
+        | some tok => some (obj [("model", mj), ("spec", obj [("out", jstr tok), ("back", b)])])
+        | none => some (obj [("model", mj), ("spec", mj)])
+  | "man.stream" =>
+    match (do
+      let docs ← arr? j "docs"; let cde ← bool? j "cde"; let nl ← bool? j "nl"
+      pure ((strs docs).map String.toList, cde, nl)) with
+    | none => some (bad "man.stream: parse")
+    | some (docs, cde, nl) =>
+      let m := yamlStream cde nl docs
+      let dj := Json.arr (docs.map jstr).toArray
+      let mj := obj [("out", jstr m), ("back", dj)]
+      match (str? j "tok").map String.toList with
+      | none => some (obj [("model", mj), ("spec", mj)])
+      | some tok =>
+        let b := match streamDocs tok with
+          | some ds => Json.arr (ds.map (fun d => jstr (unlines d))).toArray
+          | none => rejected
+        some (obj [("model", mj), ("spec", obj [("out", jstr tok), ("back", b)])])
+  | "man.dom" =>
+    match (do
+      let f ← fmtOf (← str? j "fmt"); let v ← parseV (← val? j "v")
+      pure (f, v)) with
+    | none => some (bad "man.dom: parse")
+    | some ((fm, fs), v) =>
+      some (obj [("model", obj [("ok", .bool (accepts fm v))]), ("spec", obj [("ok", .bool (inDomain fs v))])])
+  | _ => none
 
 end JrsVerif.Drv.C14
